@@ -426,6 +426,7 @@ func runC06(c *Ctx) {
 	runC06Caps(c)
 	runC06SingleConsumer(c)
 	runRouterReadOnly(c, "R11")
+	runC06Shares5(c)
 }
 
 func isLenOfField(v ssa.Value, T *types.Named, field string) bool {
